@@ -356,7 +356,8 @@ Definition tcp_incoming (cx : ctx) (s : Z) (p : packet) (w : net) : net * list k
           let t := t <| t_cwnd := t_cwnd t + t_mss t * acked / t_cwnd t |> in
           let w := set_tcp w s t in
           let writeable := t_inflight t + t_mss t <=? t_cwnd t in
-          let wake := if d26_writer_wakeup (cv cx) then blocked_before && writeable
+          let wake := if d33_writer_level (cv cx) then writeable
+                      else if d26_writer_wakeup (cv cx) then blocked_before && writeable
                       else negb blocked_before && writeable in
           if wake then let (w, c2) := tcp_maybe_wakeup_writer cx s w in (w, c1 ++ c2) else (w, c1)
       end
